@@ -118,6 +118,9 @@ type evalCtx struct {
 	old    *State
 	now    *State // the real current state (cur is switched to old inside old())
 	qvars  map[string]bound
+	inst   []Term // assumption context: also state these instances of every outermost forall
+	skTop   bool   // goal context: we are at a position where a forall may be skolemised
+	skolems []Term // skolem constants introduced
 }
 
 // ---------------------------------------------------------------------
@@ -179,8 +182,46 @@ func (fr *Frame) frameLookupNow(extra map[string]bound, nowp **State) func(strin
 		if v, ok := fr.resolveLocal(name); ok {
 			return bound{fr.val(v), v.Type()}, true
 		}
+		// a loop contract names a variable that no longer exists (renamed local): if exactly one
+		// loop-carried variable of this loop is not mentioned by the clause, it is the one meant
+		if fr.curLoop != nil && fr.clauseIdents != nil && !isSpecName(fr.vc, name) {
+			var free []*ssa.Phi
+			for _, in := range fr.curLoop.header.Instrs {
+				phi, ok := in.(*ssa.Phi)
+				if !ok {
+					break
+				}
+				if phi.Comment != "" && !fr.clauseIdents[phi.Comment] {
+					if _, have := fr.vals[phi]; have {
+						free = append(free, phi)
+					}
+				}
+			}
+			if len(free) == 1 {
+				fr.vc.note("loop contract names unknown variable " + name + "; bound to the only unmentioned loop variable " + free[0].Comment)
+				return bound{fr.vals[free[0]], free[0].Type()}, true
+			}
+		}
 		return bound{}, false
 	}
+}
+
+func isSpecName(vc *VC, name string) bool {
+	if _, ok := vc.eng.cs.SpecSyms[name]; ok {
+		return true
+	}
+	return false
+}
+
+func identsOf(e ast.Expr) map[string]bool {
+	m := map[string]bool{}
+	ast.Inspect(e, func(n ast.Node) bool {
+		if id, ok := n.(*ast.Ident); ok {
+			m[id.Name] = true
+		}
+		return true
+	})
+	return m
 }
 
 // resolveLocal: the SSA value a source-level local variable name denotes at the point of
@@ -275,7 +316,52 @@ func (fr *Frame) evalExprText(text string, cur, old *State, extra map[string]bou
 	}
 	ec := &evalCtx{vc: fr.vc, fr: fr, pkg: fr.fn.Pkg.Pkg, cur: cur, old: old, now: cur, qvars: map[string]bound{}}
 	ec.lookup = fr.frameLookupNow(extra, &ec.now)
+	fr.clauseIdents = identsOf(e)
+	defer func() { fr.clauseIdents = nil }()
 	return ec.evalSafe(e)
+}
+
+// evalGoal: for proof goals; universal quantifiers in top-level conjunct positions are
+// skolemised (equivalent for validity); the skolem constants are returned so that the caller
+// can instantiate its universal assumptions at them.
+func (fr *Frame) evalGoal(cl *Clause, cur, old *State, extra map[string]bound) (Term, []Term, error) {
+	e, err := parseContractExpr(cl.Text)
+	if err != nil {
+		return "", nil, err
+	}
+	ec := &evalCtx{vc: fr.vc, fr: fr, pkg: fr.fn.Pkg.Pkg, cur: cur, old: old, now: cur, qvars: map[string]bound{}, skTop: true}
+	ec.lookup = fr.frameLookupNow(extra, &ec.now)
+	fr.clauseIdents = identsOf(e)
+	defer func() { fr.clauseIdents = nil }()
+	v, t, err := ec.evalSafe(e)
+	if err != nil {
+		return "", nil, err
+	}
+	if !isBoolT(t) || len(v.C) != 1 {
+		return "", nil, fmt.Errorf("clause is not boolean: %s", cl.Text)
+	}
+	return v.C[0], ec.skolems, nil
+}
+
+// evalClauseInst: for assumptions; outermost universal quantifiers are additionally
+// instantiated at the given terms.
+func (fr *Frame) evalClauseInst(cl *Clause, cur, old *State, extra map[string]bound, inst []Term) (Term, error) {
+	e, err := parseContractExpr(cl.Text)
+	if err != nil {
+		return "", err
+	}
+	ec := &evalCtx{vc: fr.vc, fr: fr, pkg: fr.fn.Pkg.Pkg, cur: cur, old: old, now: cur, qvars: map[string]bound{}, inst: inst}
+	ec.lookup = fr.frameLookupNow(extra, &ec.now)
+	fr.clauseIdents = identsOf(e)
+	defer func() { fr.clauseIdents = nil }()
+	v, t, err := ec.evalSafe(e)
+	if err != nil {
+		return "", err
+	}
+	if !isBoolT(t) || len(v.C) != 1 {
+		return "", fmt.Errorf("clause is not boolean: %s", cl.Text)
+	}
+	return v.C[0], nil
 }
 
 func (fr *Frame) evalClause(cl *Clause, cur, old *State, extra map[string]bound) (Term, error) {
@@ -331,6 +417,24 @@ func (ec *evalCtx) evalSafe(e ast.Expr) (v Value, t types.Type, err error) {
 
 func (ec *evalCtx) eval(e ast.Expr) (Value, types.Type) {
 	vc := ec.vc
+	if ec.skTop {
+		// positions that keep the "top-level conjunct" status: parentheses, &&, implies(_, here), forall
+		keep := false
+		switch x := e.(type) {
+		case *ast.ParenExpr:
+			keep = true
+		case *ast.BinaryExpr:
+			keep = x.Op == token.LAND
+		case *ast.CallExpr:
+			if id, ok := x.Fun.(*ast.Ident); ok && (id.Name == "implies" || id.Name == "forall") {
+				keep = true
+			}
+		}
+		if !keep {
+			ec.skTop = false
+			defer func() { ec.skTop = true }()
+		}
+	}
 	switch x := e.(type) {
 	case *ast.ParenExpr:
 		return ec.eval(x.X)
@@ -925,7 +1029,10 @@ func (ec *evalCtx) evalCall(x *ast.CallExpr) (Value, types.Type) {
 		ec.cur = saved
 		return v, t
 	case "implies":
+		top := ec.skTop
+		ec.skTop = false
 		a, _ := arg(0)
+		ec.skTop = top
 		b, _ := arg(1)
 		return Value{C: []Term{sImp(a.C[0], b.C[0])}}, tBool
 	case "iff":
@@ -972,8 +1079,26 @@ func (ec *evalCtx) evalCall(x *ast.CallExpr) (Value, types.Type) {
 		if !ok || len(x.Args) != 4 {
 			ec.fail("%s(i, lo, hi, body)", name)
 		}
+		top := ec.skTop
+		ec.skTop = false
 		lo, _ := arg(1)
 		hi, _ := arg(2)
+		if top && name == "forall" && vc.inQuant == 0 {
+			// goal position: prove the body for a fresh constant
+			sk := vc.fresh("sk."+id.Name, "Int")
+			ec.skolems = append(ec.skolems, sk)
+			saved, had := ec.qvars[id.Name]
+			ec.qvars[id.Name] = bound{Value{C: []Term{sk}}, types.Typ[types.Int]}
+			ec.skTop = true
+			b, _ := arg(3)
+			if had {
+				ec.qvars[id.Name] = saved
+			} else {
+				delete(ec.qvars, id.Name)
+			}
+			return Value{C: []Term{sImp(sAnd("(<= "+lo.C[0]+" "+sk+")", "(< "+sk+" "+hi.C[0]+")"), b.C[0])}}, tBool
+		}
+		defer func() { ec.skTop = top }()
 		vc.nfresh++
 		qn := sym(fmt.Sprintf("%s!q%d", id.Name, vc.nfresh))
 		saved, had := ec.qvars[id.Name]
@@ -991,7 +1116,34 @@ func (ec *evalCtx) evalCall(x *ast.CallExpr) (Value, types.Type) {
 		}
 		rng := sAnd("(<= "+lo.C[0]+" "+qn+")", "(< "+qn+" "+hi.C[0]+")")
 		if name == "forall" {
-			return Value{C: []Term{"(forall ((" + qn + " Int)) " + sImp(rng, body.C[0]) + ")"}}, tBool
+			q := "(forall ((" + qn + " Int)) " + sImp(rng, body.C[0]) + ")"
+			if len(ec.inst) > 0 && vc.inQuant == 0 {
+				// instantiation hints (sound: instances of the universal statement itself)
+				parts := []Term{q}
+				insts := append([]Term{}, ec.inst...)
+				insts = append(insts, lo.C[0], iSub(hi.C[0], "1"))
+				done := map[Term]bool{}
+				for _, t := range insts {
+					if done[t] {
+						continue
+					}
+					done[t] = true
+					saved, had := ec.qvars[id.Name]
+					ec.qvars[id.Name] = bound{Value{C: []Term{t}}, types.Typ[types.Int]}
+					keep := ec.inst
+					ec.inst = nil
+					b, _ := arg(3)
+					ec.inst = keep
+					if had {
+						ec.qvars[id.Name] = saved
+					} else {
+						delete(ec.qvars, id.Name)
+					}
+					parts = append(parts, sImp(sAnd("(<= "+lo.C[0]+" "+t+")", "(< "+t+" "+hi.C[0]+")"), b.C[0]))
+				}
+				return Value{C: []Term{sAnd(parts...)}}, tBool
+			}
+			return Value{C: []Term{q}}, tBool
 		}
 		return Value{C: []Term{"(exists ((" + qn + " Int)) " + sAnd(rng, body.C[0]) + ")"}}, tBool
 	case "same":
